@@ -83,6 +83,9 @@ CONTEXTS = [
     ("agg", "h :- 1 <= #sum {{ 1,{G} : {B} }}."),
     ("aggA", "h :- 3 <= #sum {{ A,{G} : {B} }}."),
     ("aggG", "h({G}) :- d({G}), 1 <= #sum {{ 1 : {B} }}."),
+    ("nagg", "h :- not 1 <= #sum {{ 1,{G} : {B} }}."),
+    ("nnagg", "h :- not not 1 <= #sum {{ 1,{G} : {B} }}."),
+    ("ncond", "h :- d(1), not q(0) : {B}."),
     ("weak", ":~ {B}. [1@1,{G}]"),
     ("weakA", ":~ {B}. [A@1,{G}]"),
 ]
